@@ -146,6 +146,11 @@ func buildUpdate(rnd *rand.Rand) []byte {
 	}
 	// attributes
 	types := []byte{1, 2, 3, 4, 14, 15, 99, 255, 5, 8}
+	if rnd.Intn(3) == 0 {
+		// type codes that differ only in one high bit (what a "seen" table indexed carelessly would confuse)
+		base := []byte{0, 1, 2, 3, 14, 15}[rnd.Intn(6)]
+		types = []byte{base, base ^ 32, base ^ 64, base ^ 128, base ^ 16, base ^ 8, 14, 15, 1, 2}
+	}
 	flagss := []byte{0x40, 0x80, 0xC0, 0x50, 0x90, 0xD0, 0x00, 0xFF}
 	vlens := []int{0, 1, 4, 4, 6, 8, 255, 256, 300}
 	var attrs []byte
